@@ -141,6 +141,37 @@ func genMapOrder(g *G, tier string, emit func(string)) {
 			}
 		}
 	}
+	// several map types side by side in one struct (sibling fields are served by one slab row): each field's
+	// map type has its own morphism entry, or none (then the atlas default applies), in every combination
+	{
+		mts := []string{"(mp s i)", "(mp s i64)", "(mp s u8)"}
+		mk := func(ks []string) string {
+			var ents []string
+			for i, k := range ks {
+				ents = append(ents, fmt.Sprintf("((s %s) (n %d))", hexOrDashS(k), i))
+			}
+			return "(mp " + strings.Join(ents, " ") + ")"
+		}
+		vals := []string{mk([]string{"bb", "a", "aaa", "c"}), mk([]string{"zz", "y", "xxx", "é"}), mk([]string{"k10", "k9", "k", "kk"})}
+		for combo := 0; combo < 64; combo++ { // per field: 0 = no entry, 1..3 = morphism with mode 0..2
+			for amode := 0; amode < 3; amode++ {
+				ents := ""
+				for fi := 0; fi < 3; fi++ {
+					if m := (combo >> (2 * uint(fi))) & 3; m > 0 {
+						ents += fmt.Sprintf(" (e %s - (mm %d))", mts[fi], m-1)
+					}
+				}
+				hdr := fmt.Sprintf("(env (100 %s %s %s)) (atlas %d (e (st 100) - (smap (fld 61 (0) %s 0 0) (fld 62 (1) %s 0 0) (fld 63 (2) %s 0 0)))%s)",
+					mts[0], mts[1], mts[2], amode, mts[0], mts[1], mts[2], ents)
+				val := fmt.Sprintf("(st %s %s %s)", vals[0], vals[1], vals[2])
+				f := []string{"c ~ ~ -", "j ~ ~ -"}[combo%2]
+				emit(fmt.Sprintf("%s ; %s (st 100) %s", f, hdr, val))
+				if combo%8 == 0 {
+					emit(fmt.Sprintf("%s ; %s (sl (st 100)) (sl %s %s)", f, hdr, val, val))
+				}
+			}
+		}
+	}
 	for i := 0; i < n; i++ {
 		isJSON := i%2 == 1
 		o := optsFull
